@@ -314,6 +314,13 @@ func (fr *Frame) callWithArgs(s *State, g *Term, call *ssa.CallCommon, ins ssa.I
 	if ci := x.closures[fnv]; ci != nil && ci.fn.Blocks != nil {
 		return fr.inlineCall(s, g, ci.fn, args, ci.bindings, fr.spec)
 	}
+	// `for k, v := range iteratorFunc`: a call of the iterator with the compiler-generated loop body as yield function
+	if it := x.iterators[fnv]; it != nil && len(args) == 1 && !fr.spec {
+		if yc := x.closures[args[0]]; yc != nil && yc.fn.Synthetic == "range-over-func yield" && yc.fn.Blocks != nil {
+			fr.rangeFuncCall(s, g, it, yc, ins, pos)
+			return nil
+		}
+	}
 	fr.havocAll(s, g, "call through function value at "+x.P.posStr(pos))
 	r := fr.freshResult(s, g, "dyncall", sig)
 	if r != nil {
@@ -624,6 +631,21 @@ func (fr *Frame) applyContract(s *State, g *Term, fc *FuncContract, callee *ssa.
 			cond := cf.evalClauseAt(ce, s, nil, extra)
 			s.ghost[ce.Ghost] = c.Ite(cond, c.BVBin("bvadd", v, c.BV(1, bvWidth(v.sort))), v)
 		}
+	}
+	// an iterator-returning function with a `yields` clause: remember what the returned function value yields
+	if len(fc.Yields) == 3 && res != nil && res.sort == SRef {
+		idx := c.Fresh("rf_index", SBV(64))
+		cf.cbArgTypes = map[string]types.Type{"rangeindex": types.Typ[types.Int]}
+		ex := map[string]*Term{"rangeindex": idx}
+		it := &iterInfo{idx: idx}
+		it.n = cf.evalClauseAt(fc.Yields[0], s, nil, ex)
+		it.key = cf.evalClauseAt(fc.Yields[1], s, nil, ex)
+		it.val = cf.evalClauseAt(fc.Yields[2], s, nil, ex)
+		cf.cbArgTypes = nil
+		if x.iterators == nil {
+			x.iterators = map[*Term]*iterInfo{}
+		}
+		x.iterators[res] = it
 	}
 	return res
 }
